@@ -102,12 +102,13 @@ def _module(pid):
     return _MOD[pid]
 
 
-def _worker_init():
+def _worker_init(inproc=False):
     import resource
     import torch
     lim = int(os.environ.get("VERIF_WORKER_MEM_GB", "10")) << 30
     try:  # a runaway allocation inside the library becomes a Python exception, not an OOM kill
-        resource.setrlimit(resource.RLIMIT_AS, (lim, lim))
+        if not inproc:
+            resource.setrlimit(resource.RLIMIT_AS, (lim, lim))
     except (ValueError, OSError):
         pass
     torch.set_num_threads(1)
@@ -115,8 +116,9 @@ def _worker_init():
     signal.signal(signal.SIGALRM, _alarm)
     # the library prints progress messages from constructors; keep the check's stdout for verdict lines only
     try:
-        devnull = os.open(os.devnull, os.O_WRONLY)
-        os.dup2(devnull, 1)
+        if not inproc:
+            devnull = os.open(os.devnull, os.O_WRONLY)
+            os.dup2(devnull, 1)
     except OSError:
         pass
     import warnings
@@ -215,10 +217,14 @@ def main_run(pid, tier, seed, jobs, only=None, replay=None):
     work = [(pid, cid, payload, horizon) for cid, payload in caselist]
     results = []
     if jobs <= 1 or len(work) <= 1 or getattr(mod, "INPROCESS", False):
+        import contextlib
+        import io
         import kmc.preload  # noqa: F401
-        _worker_init()
+        _worker_init(inproc=True)
         for w in work:
-            results.append(run_case(w))
+            with contextlib.redirect_stdout(io.StringIO()):      # the library prints progress messages
+                r = run_case(w)
+            results.append(r)
     else:
         from concurrent.futures import ProcessPoolExecutor, as_completed
         from concurrent.futures.process import BrokenProcessPool
